@@ -17,7 +17,7 @@
 #include "h_env.h"
 #include <math.h>
 
-#define MAXOPS 24
+#define MAXOPS 200
 #define MAXCMDS 24
 typedef struct { char name[4]; long long a[4]; unsigned long long u; unsigned char data[600]; size_t dlen; int isnull; } op_t;
 typedef struct { char pattern[96]; int tag; op_t ops[MAXOPS]; int nops; } hcmd_t;
